@@ -1,7 +1,7 @@
 """C01 (narrow): T-ORACLE (RV32I + MSP430 core vs the architecture manuals: table rows, encoder insertions,
 decoder extractions), T-LEN (decoder lengths vs encoder emission unit), T-CPU (registry rows)."""
 from nk import report
-from rules import oracle6502, oracle8051, oracle4004, oracle1802, oracle, tbl, pagebase, caselen, fieldshift, overlap, signext
+from rules import oracle6502, oracle8051, oracle4004, oracle1802, oracle, tbl, pagebase, caselen, fieldshift, overlap, signext, extent
 from . import common
 
 EXPLANATION = (
@@ -13,13 +13,13 @@ EXPLANATION = (
     'instruction bits in assembler operand order — encoder and decoder are each compared with the manual, hence with '
     'each other. T-LEN: for every CPU whose encoder emits through a single add_binW unit, each constant length returned '
     'by its decoder is a positive multiple of W (== W for fixed-size ISAs). T-CPU: every cpu_list row has a legal '
-    'bytes_per_address and non-null handlers. T-ORACLE(4004) / T-ORACLE(1802): every table row with a documented Intel 4004 / RCA CDP1802 mnemonic has the opcode and fixed-bit mask of that instruction. T-ORACLE(6502) / T-ORACLE(8051): every documented opcode of the NMOS 6502 and of the MCS-51 sits at its index in the opcode-indexed tables with its mnemonic, addressing mode / operand kinds and register number, no mnemonic+mode pair is listed twice, and the per-mode lengths agree. PAGE-BASE: for the paged jumps (8051 ajmp/acall, MIPS j/jal) assembler and disassembler both take the upper target bits from the architectural base (pc+2 / pc+4), so the listed target is the assembled one also at the end of a block. CASE-LEN: for every operand-type enumerator with a case arm in both parse_instruction_X and disasm_X (same table), every byte count the assembler arm can emit is a length the decoder arm returns (arm-local path enumeration; helpers only when they always emit the same count). TABLE-INDEX: inside a search loop over one opcode table no other table is indexed with the loop counter unless the column read is identical in both. CASE-FALLTHROUGH: in the operand-type switches of assemblers and decoders no arm runs into the next one (missing break/return), unless the end of the arm is refuted by evaluating its tests over the table rows of that type and the values of the small-range local they read. DEC-COVER: in the decoders that search `(opcode & mask) == opcode` and switch on the row type, every table row that is the first match of its own opcode word has a case for its type. FIELD-SHIFT: for the CPUs whose encoder emits one 16- or 32-bit unit, every bit position at which an assembler arm inserts a non-constant field is a position the decoder arm of the same operand type reads (shared arms resolved per type, row-only guards evaluated over the rows of the type, fall-through followed). MASK-COVER: in the tables searched with `(word & mask) == opcode` no row has an opcode bit outside its mask (such a row is never matched), unless the bit is an operand field the assembler arm of that type inserts (arm64 Q bit) or the row is a listed spelling. FIELD-OVERLAP: operand fields OR-ed into one emitted word are pairwise disjoint (two operand tuples cannot assemble to one word through a field spilling into its neighbour). SIGN-EXT: every `if (test of v) v = adjust(v)` sign extension in the decoders equals two-complement sign extension of the field for all of its values (exhaustive evaluation in the C type of v). Not decided: the round trip for other CPUs / arbitrary operand values.')
+    'bytes_per_address and non-null handlers. T-ORACLE(4004) / T-ORACLE(1802): every table row with a documented Intel 4004 / RCA CDP1802 mnemonic has the opcode and fixed-bit mask of that instruction. T-ORACLE(6502) / T-ORACLE(8051): every documented opcode of the NMOS 6502 and of the MCS-51 sits at its index in the opcode-indexed tables with its mnemonic, addressing mode / operand kinds and register number, no mnemonic+mode pair is listed twice, and the per-mode lengths agree. PAGE-BASE: for the paged jumps (8051 ajmp/acall, MIPS j/jal) assembler and disassembler both take the upper target bits from the architectural base (pc+2 / pc+4), so the listed target is the assembled one also at the end of a block. CASE-LEN: for every operand-type enumerator with a case arm in both parse_instruction_X and disasm_X (same table), every byte count the assembler arm can emit is a length the decoder arm returns (arm-local path enumeration; helpers only when they always emit the same count). TABLE-INDEX: inside a search loop over one opcode table no other table is indexed with the loop counter unless the column read is identical in both. CASE-FALLTHROUGH: in the operand-type switches of assemblers and decoders no arm runs into the next one (missing break/return), unless the end of the arm is refuted by evaluating its tests over the table rows of that type and the values of the small-range local they read. DEC-COVER: in the decoders that search `(opcode & mask) == opcode` and switch on the row type, every table row that is the first match of its own opcode word has a case for its type. FIELD-SHIFT: for the CPUs whose encoder emits one 16- or 32-bit unit, every bit position at which an assembler arm inserts a non-constant field is a position the decoder arm of the same operand type reads (shared arms resolved per type, row-only guards evaluated over the rows of the type, fall-through followed). MASK-COVER: in the tables searched with `(word & mask) == opcode` no row has an opcode bit outside its mask (such a row is never matched), unless the bit is an operand field the assembler arm of that type inserts (arm64 Q bit) or the row is a listed spelling. FIELD-OVERLAP: operand fields OR-ed into one emitted word are pairwise disjoint (two operand tuples cannot assemble to one word through a field spilling into its neighbour). SIGN-EXT: every `if (test of v) v = adjust(v)` sign extension in the decoders equals two-complement sign extension of the field for all of its values (exhaustive evaluation in the C type of v). RUN-COVER: in the decoders that keep a running length with every read at a constant offset (8051, msp430, tms9900), on every condition-consistent path the reads tile the returned length whenever the length was incremented on the path (an extension word counted but never read, or two operands taking the same word, prints one text for different encodings). Not decided: the round trip for other CPUs / arbitrary operand values.')
 
 
 def run(tier, t0):
     prog = common.program()
     cg = common.callgraph()
-    results = [oracle.run(prog), oracle6502.oracle(prog), oracle8051.oracle(prog), oracle4004.oracle(prog), oracle1802.oracle(prog), tbl.tlen(prog, cg), tbl.tcpu(prog), pagebase.page_base(prog), caselen.case_len(prog), caselen.table_index(prog), caselen.fallthrough(prog), caselen.dec_cover(prog), fieldshift.field_shift(prog, cg), caselen.mask_cover(prog), overlap.field_overlap(prog, floor=100), signext.sign_ext(prog, 50)]
+    results = [oracle.run(prog), oracle6502.oracle(prog), oracle8051.oracle(prog), oracle4004.oracle(prog), oracle1802.oracle(prog), tbl.tlen(prog, cg), tbl.tcpu(prog), pagebase.page_base(prog), caselen.case_len(prog), caselen.table_index(prog), caselen.fallthrough(prog), caselen.dec_cover(prog), fieldshift.field_shift(prog, cg), caselen.mask_cover(prog), overlap.field_overlap(prog, floor=100), signext.sign_ext(prog, 50), extent.run_cover(prog, cg, floor=3)]
     return report.finish('C01', tier, results, EXPLANATION,
                          ['the oracle tables in rules/oracle.py are a faithful transcription of the RISC-V unprivileged '
                           'spec (RV32I) and the MSP430x1xx Family User\'s Guide instruction formats; rules/oracle6502.py transcribes the 151 NMOS 6502 '
